@@ -3643,7 +3643,11 @@ type Call struct {
 }
 
 // String returns a string representation of the call.
-func (c *Call) String() string {
+func (c *Call) String() string { return c.format(false) }
+
+// format prints the call. Behind a sign the parser does not accept the
+// DISTINCT keyword, so there the name is quoted like any other keyword.
+func (c *Call) format(signed bool) string {
 	// Join arguments.
 	var str []string
 	for _, arg := range c.Args {
@@ -3654,7 +3658,7 @@ func (c *Call) String() string {
 	// (distinct is the one keyword the parser accepts in front of a
 	// parenthesis).
 	name := c.Name
-	if name != "distinct" && IdentNeedsQuotes(name) {
+	if (name != "distinct" || signed) && IdentNeedsQuotes(name) {
 		name = QuoteIdent(name)
 	}
 
@@ -3865,12 +3869,15 @@ func (e *BinaryExpr) String() string {
 func (e *BinaryExpr) rhsString() string {
 	if rhs, ok := e.RHS.(*BinaryExpr); ok && rhs.Op == MUL && e.Op.Precedence() >= MUL.Precedence() {
 		if lit, ok := rhs.LHS.(*IntegerLiteral); ok && (lit.Val == -1 || lit.Val == 1) {
-			switch rhs.RHS.(type) {
-			case *VarRef, *Call, *ParenExpr:
-				if lit.Val < 0 {
-					return "-" + rhs.RHS.String()
-				}
-				return "+" + rhs.RHS.String()
+			sign := "+"
+			if lit.Val < 0 {
+				sign = "-"
+			}
+			switch operand := rhs.RHS.(type) {
+			case *Call:
+				return sign + operand.format(true)
+			case *VarRef, *ParenExpr:
+				return sign + operand.String()
 			}
 		}
 	}
